@@ -11,6 +11,7 @@ import (
 	"regexp"
 	"runtime"
 	"sort"
+	"strconv"
 	"strings"
 	"sync"
 	"syscall"
@@ -610,7 +611,11 @@ func RunReplay(path string) int {
 		return 2
 	}
 	fmt.Printf("goatsim: replay %s history_hash=%s (recorded %s) events=%d\n", path, r1.Hash, rp.Hash, r1.History.Len())
-	for _, l := range r1.History.Tail(40) {
+	tail := 40
+	if v, err := strconv.Atoi(os.Getenv("GOATSIM_TAIL")); err == nil && v > 0 {
+		tail = v
+	}
+	for _, l := range r1.History.Tail(tail) {
 		fmt.Println("  ", l)
 	}
 	if hasSig(r1, rp.Violation.Sig()) {
